@@ -276,10 +276,27 @@ def hdl21_naming_encoder(obj: Any) -> Any:
     from .instance import Instance
     from .generator import Generator
     from .primitives import Primitive, PrimitiveCall
+    from .prefix import Prefixed
+    from decimal import Decimal
 
     if isinstance(obj, (Instance,)):
         # Not supported as parameters
         raise RuntimeError(f"Invalid `hdl21.paramclass` field {obj}")
+
+    if isinstance(obj, (Prefixed, Decimal)):
+        # Exact numbers are named by their exact value: all of its digits,
+        # and the same text however that value happens to be written (`1000 * m`, `1 * UNIT`, `1.000`).
+        value = obj._value() if isinstance(obj, Prefixed) else obj
+        sign, digits, exponent = value.as_tuple()
+        if not value.is_finite():
+            return str(value)
+        digits = list(digits)
+        while len(digits) > 1 and digits[-1] == 0:
+            digits.pop()  # Strip trailing zeros, into the exponent
+            exponent += 1
+        if digits == [0]:
+            return "0"
+        return ("-" if sign else "") + "".join(str(d) for d in digits) + "e" + str(exponent)
 
     if isinstance(obj, (Module, ExternalModule, Generator)):
         # Use qualified class names/paths
